@@ -275,9 +275,9 @@ Theorem finite_bijection k vs : NoDup vs ->
      exists i, i < length vs /\ dom_numberize d v = Ok (vnat i) /\ dom_denumberize d (vnat i) = Ok v) /\
   (forall i, i < length vs ->
      exists v, In v vs /\ dom_denumberize d (vnat i) = Ok v /\ dom_numberize d v = Ok (vnat i)) /\
-  (forall v, dom_contains d v = Ok true <->
-             exists i, i < length vs /\ dom_denumberize d (vnat i) = Ok v) /\
-  (forall v, (dom_contains d v = Ok true <-> In v vs) /\ (dom_contains d v = Ok false <-> ~ In v vs)) /\
+  (forall v b, dom_contains d v b = Ok true <->
+               exists i, i < length vs /\ dom_denumberize d (vnat i) = Ok v) /\
+  (forall v b, (dom_contains d v b = Ok true <-> In v vs) /\ (dom_contains d v b = Ok false <-> ~ In v vs)) /\
   (forall v, ~ In v vs -> dom_numberize d v = Err KeyErr).
 Proof.
   intros Hnd d. subst d. unfold mk_finite.
@@ -293,13 +293,13 @@ Proof.
     exists v. split; [eapply nth_error_In; eauto|].
     rewrite as_int_vnat. unfold fin_denumberize. split; [apply py_index_nat; auto|].
     rewrite (numberize_position vs v Hnd), (position_nth vs Hnd i v Hn). reflexivity.
-  - intros v. split.
+  - intros v _. split.
     + intros H. injection H as H. apply memv_In in H.
       destruct (position_In vs v H) as [i Hp]. destruct (position_Some _ _ _ Hp) as [Hn Hl].
       exists i. split; auto. rewrite as_int_vnat. apply py_index_nat; auto.
     + intros [i [Hl H]]. rewrite as_int_vnat in H. apply py_index_Ok_In in H.
       f_equal. apply memv_In; auto.
-  - intros v. fold (memv vs v). destruct (memv vs v) eqn:E.
+  - intros v _. fold (memv vs v). destruct (memv vs v) eqn:E.
     + apply memv_In in E. split; split; auto; try discriminate. intros H; contradiction.
     + assert (~ In v vs) by (intros H; apply memv_In in H; congruence).
       split; split; auto; try discriminate. intros H'; contradiction.
@@ -393,11 +393,11 @@ Qed.
 Lemma Qle_bool_int a b : Qle_bool (inject_Z a) (inject_Z b) = (a <=? b)%Z.
 Proof. unfold Qle_bool, inject_Z; cbn. rewrite !Z.mul_1_r. reflexivity. Qed.
 
-Lemma range_contains_int n z :
-  dom_contains (DRange (Some n)) (vint z) = Ok (in_range_int n (vint z)).
+Lemma range_contains_int n z b :
+  dom_contains (DRange (Some n)) (vint z) b = Ok (b && in_range_int n (vint z)).
 Proof.
-  cbn [dom_contains vint q_lt_size]. unfold in_range_int. rewrite as_int_vint.
-  change 0%Q with (inject_Z 0). rewrite !Qle_bool_int. f_equal. f_equal.
+  cbn [dom_contains]. unfold range_contains, q_lt_size, in_range_int. rewrite as_int_vint. unfold vint.
+  change 0%Q with (inject_Z 0). rewrite !Qle_bool_int. f_equal. f_equal. f_equal.
   rewrite Z.ltb_antisym. reflexivity.
 Qed.
 
@@ -410,53 +410,68 @@ Proof.
   - intros [i [Hi ->]]. rewrite as_int_vnat. apply andb_true_iff. rewrite Z.leb_le, Z.ltb_lt. lia.
 Qed.
 
-(** on the integers a RangeDomain of size n is the identity bijection on 0..n-1 *)
+Lemma int_flag_vint v : int_flag_ok (v, true) = true -> exists z, v = vint z.
+Proof.
+  unfold int_flag_ok; cbn [fst snd negb orb]. destruct v as [[a d]|c]; [|discriminate].
+  cbn [Qden]. intros H. apply Pos.eqb_eq in H. subst. exists a. reflexivity.
+Qed.
+
+(** a RangeDomain of size n is the identity bijection on the ints 0..n-1; values that are not
+    ints (floats -- even 1.0 --, strings, None, tuples) are not contained *)
 Theorem range_bijection n :
   let d := DRange (Some n) in
   dom_size d = Some n /\
   (forall v, dom_numberize d v = Ok v /\ dom_denumberize d v = Ok v) /\
-  (forall z, dom_contains d (vint z) = Ok true <-> (0 <= z < Z.of_nat n)%Z) /\
-  (forall i, i < n -> dom_contains d (vnat i) = Ok true) /\
-  (forall z, dom_contains d (vint z) = Ok true <-> exists i, i < n /\ dom_denumberize d (vnat i) = Ok (vint z)) /\
-  (forall c, dom_contains d (VOther c) = Err TypeErr).
+  (forall z, dom_contains d (vint z) true = Ok true <-> (0 <= z < Z.of_nat n)%Z) /\
+  (forall i, i < n -> dom_contains d (vnat i) true = Ok true) /\
+  (forall v, dom_contains d v false = Ok false) /\
+  (forall c b, dom_contains d (VOther c) b = Ok false).
 Proof.
   cbn zeta. split; [reflexivity|]. split; [intros; split; reflexivity|].
-  assert (H : forall z, dom_contains (DRange (Some n)) (vint z) = Ok true <-> (0 <= z < Z.of_nat n)%Z).
-  { intros z. rewrite range_contains_int. unfold in_range_int. rewrite as_int_vint.
+  assert (H : forall z, dom_contains (DRange (Some n)) (vint z) true = Ok true <-> (0 <= z < Z.of_nat n)%Z).
+  { intros z. rewrite range_contains_int. cbn [andb]. unfold in_range_int. rewrite as_int_vint.
     split.
     - intros E. injection E as E. apply andb_true_iff in E. rewrite Z.leb_le, Z.ltb_lt in E. auto.
     - intros E. f_equal. apply andb_true_iff. rewrite Z.leb_le, Z.ltb_lt. auto. }
   split; [exact H|]. split; [|split].
   - intros i Hi. apply H. lia.
-  - intros z. rewrite H. cbn [dom_denumberize]. split.
-    + intros Hz. exists (Z.to_nat z). split; [lia|]. unfold vnat. rewrite Z2Nat.id; [reflexivity|lia].
-    + intros [i [Hi E]]. unfold vnat, vint, inject_Z in E. inversion E. lia.
   - reflexivity.
+  - intros c b. destruct b; reflexivity.
 Qed.
 
-Example range_bijection_example : dom_contains (DRange (Some 3)) (vnat 2) = Ok true.
-Proof. reflexivity. Qed.
+Example range_bijection_example :
+  dom_contains (DRange (Some 3)) (vnat 2) true = Ok true /\ dom_contains (DRange (Some 3)) (vnat 1) false = Ok false.
+Proof. split; reflexivity. Qed.
 
-(** full-strength statement over all values: contains v <-> some denumberize n, n < size, yields v.
-    Refuted: RangeDomain(1).contains(0.5) is True. *)
-Theorem range_contains_refuted :
-  ~ (forall n v, dom_contains (DRange (Some n)) v = Ok true <->
-                 exists i, i < n /\ dom_denumberize (DRange (Some n)) (vnat i) = Ok v).
+(** the full statement on the modelled universe of Python values (equality class [v] + flag
+    [b] = isinstance(_, int), an int being an integral number): contains holds iff the value is
+    an int that some denumberize n, n < size, yields *)
+Theorem range_contains_iff n v b : int_flag_ok (v, b) = true ->
+  (dom_contains (DRange (Some n)) v b = Ok true <->
+   b = true /\ exists i, i < n /\ dom_denumberize (DRange (Some n)) (vnat i) = Ok v).
+Proof.
+  intros Hw. destruct b.
+  - destruct (int_flag_vint v Hw) as [z ->]. rewrite range_contains_int. cbn [andb dom_denumberize]. split.
+    + intros H. injection H as H. apply in_range_int_iff in H. destruct H as [i [Hi E]].
+      split; auto. exists i. split; auto. rewrite E. reflexivity.
+    + intros [_ [i [Hi E]]]. injection E as E. f_equal. apply in_range_int_iff. exists i.
+      split; auto. unfold vnat. rewrite E. reflexivity.
+  - cbn. split; [discriminate|]. intros [H _]. discriminate.
+Qed.
+
+(** Record of the repaired finding (/repo 973b650): without the isinstance test, contains was
+    true for every number in [0, size), e.g. RangeDomain(1).contains(0.5), and raised TypeError
+    for non-numbers. *)
+Definition range_contains_old (sz : option nat) (v : value) : result bool :=
+  match v with
+  | VNum q => Ok (Qle_bool 0 q && q_lt_size q sz)
+  | VOther _ => Err TypeErr
+  end.
+Theorem range_contains_refuted_old :
+  ~ (forall n v, range_contains_old (Some n) v = Ok true <-> exists i, i < n /\ v = vnat i).
 Proof.
   intros H. destruct (proj1 (H 1 (VNum (1#2))) eq_refl) as [i [Hi E]].
-  cbn in E. unfold vnat, vint, inject_Z in E. inversion E.
-Qed.
-
-(** the same statement under the guard that the value is an integer (or not a number at all) *)
-Theorem range_contains_integral n v : integral_probe v = true ->
-  (dom_contains (DRange (Some n)) v = Ok true <->
-   exists i, i < n /\ dom_denumberize (DRange (Some n)) (vnat i) = Ok v).
-Proof.
-  destruct v as [q|c]; cbn [integral_probe].
-  - intros Hd. assert (E : VNum q = vint (Qnum q)).
-    { destruct q as [a b]. apply Pos.eqb_eq in Hd. cbn in Hd. subst. reflexivity. }
-    rewrite E. apply (range_bijection n).
-  - intros _. cbn. split; [discriminate|]. intros [i [_ H]]. discriminate.
+  unfold vnat, vint, inject_Z in E. inversion E.
 Qed.
 
 (** * Soundness of the oracles *)
@@ -508,31 +523,28 @@ Proof.
     specialize (Hentry v c n Hin). rewrite (position_nth items Hnd i v E) in Hentry. auto.
 Qed.
 
-(** If [range_oracle] accepts, then on the probed values: size = n; for a number, contains says
-    exactly whether it is one of the integers 0..n-1, and on those numberize and denumberize are
-    the identity; a non-number is never contained. *)
+(** If [range_oracle] accepts, then on the probed values: size = n; contains says exactly
+    whether the value is an int among 0..n-1, and on those numberize and denumberize are the
+    identity. *)
 Theorem range_oracle_sound n size tab :
   range_oracle n size tab = true ->
   size = Some n /\
-  forall v c nu de, In (v, (c, nu, de)) tab ->
-    match v with
-    | VNum _ => (c = Ok true <-> exists i, i < n /\ v = vnat i) /\
-                ((exists i, i < n /\ v = vnat i) -> nu = Ok v /\ de = Ok v) /\
-                (c = Ok true \/ c = Ok false)
-    | VOther _ => c <> Ok true
-    end.
+  forall v b c nu de, In (v, b, (c, nu, de)) tab ->
+    (c = Ok true <-> b = true /\ exists i, i < n /\ v = vnat i) /\
+    (b = true -> (exists i, i < n /\ v = vnat i) -> nu = Ok v /\ de = Ok v) /\
+    (c = Ok true \/ c = Ok false).
 Proof.
   unfold range_oracle. rewrite andb_true_iff. intros [Hs Ht].
   apply (option_eqb_eq Nat.eqb Nat.eqb_eq) in Hs. split; auto.
-  rewrite forallb_forall in Ht. intros v c nu de Hin. specialize (Ht _ Hin). cbn in Ht.
-  destruct v as [q|k].
-  - apply andb_true_iff in Ht. destruct Ht as [Hc Hr]. apply rbool_eqb_eq in Hc.
-    rewrite <- in_range_int_iff. split; [|split].
-    + rewrite Hc. split; [intros H; injection H; auto | intros ->; auto].
-    + intros Hi. rewrite Hi in Hr. cbn in Hr. apply andb_true_iff in Hr.
-      destruct Hr as [H1 H2]. apply rvalue_eqb_eq in H1, H2. auto.
-    + rewrite Hc. destruct (in_range_int n (VNum q)); auto.
-  - intros E. rewrite E in Ht. cbn in Ht. discriminate.
+  rewrite forallb_forall in Ht. intros v b c nu de Hin. specialize (Ht _ Hin). cbv beta iota zeta in Ht.
+  apply andb_true_iff in Ht. destruct Ht as [Hc Hr]. apply rbool_eqb_eq in Hc.
+  rewrite <- in_range_int_iff. split; [|split].
+  - rewrite Hc. split.
+    + intros H. injection H as H. apply andb_true_iff in H. auto.
+    + intros [-> ->]. reflexivity.
+  - intros -> Hi. rewrite Hi in Hr. cbn [andb negb orb] in Hr. apply andb_true_iff in Hr.
+    destruct Hr as [H1 H2]. apply rvalue_eqb_eq in H1, H2. auto.
+  - rewrite Hc. destruct (b && in_range_int n v); auto.
 Qed.
 
 Theorem eq_oracle_sound d eqs :
@@ -550,6 +562,6 @@ Example bij_oracle_accepts_model :
   let items := [VNum 1; VOther 0; VOther 1; VNum (1#2)] in
   let d := mk_finite Reiterable items in
   let probes := items ++ [VNum 2; VOther 7] in
-  bij_oracle items 4 (combine probes (combine (map (dom_contains d) probes) (map (dom_numberize d) probes)))
+  bij_oracle items 4 (combine probes (combine (map (fun v => dom_contains d v false) probes) (map (dom_numberize d) probes)))
              (map (fun i => dom_denumberize d (vnat i)) (seq 0 4)) = true.
 Proof. reflexivity. Qed.
